@@ -727,6 +727,7 @@ fn scene_xml(s: &Scene, ch: &mut dyn Choose, k: Knobs, notes: &mut Vec<String>) 
     let omit_empty = c("xml-omit-empty-containers", 2) == 1;
     let codecs = c("xml-codecs-element", 2) == 1;
     let omit_clock_flag = c("xml-omit-clock-flag", 2) == 1;
+    let reversed_children = c("xml-structure-children-reversed", 2) == 1;
     // white space around numeric text is left out of the menu: whether E57 readers have to accept it
     // is not settled by anything this model is bound to (the validator refuses it, too)
     let num_pad = "";
@@ -959,7 +960,44 @@ fn scene_xml(s: &Scene, ch: &mut dyn Choose, k: Knobs, notes: &mut Vec<String>) 
     }
     x.close("e57Root");
     notes.append(&mut x.notes);
+    if reversed_children {
+        notes.push("children of every Structure (except prototypes, whose order is the record order) written in reverse order".into());
+        return reverse_structure_children(&x.out);
+    }
     x.out
+}
+
+/// The children of an E57 Structure are identified by their names, not by their position: the same
+/// document with the child elements of every Structure in reverse order (separators stay where
+/// they are). Prototypes keep their order - it is the order of the byte streams - and so do Vectors.
+fn reverse_structure_children(xml: &str) -> String {
+    fn emit(xml: &str, e: &crate::xml::Elem, out: &mut String) {
+        let kids: Vec<&crate::xml::Elem> = e.child_elems().collect();
+        if e.self_closing || kids.is_empty() {
+            out.push_str(&xml[e.start..e.end]);
+            return;
+        }
+        let reversed = e.attr("type") == Some("Structure") && e.local != "prototype";
+        let mut pos = e.open_end + 1;
+        out.push_str(&xml[e.start..pos]);
+        for (i, k) in kids.iter().enumerate() {
+            out.push_str(&xml[pos..k.start]);
+            let pick = if reversed { kids[kids.len() - 1 - i] } else { kids[i] };
+            emit(xml, pick, out);
+            pos = k.end;
+        }
+        out.push_str(&xml[pos..e.end]);
+    }
+    match crate::xml::parse(xml) {
+        Ok(doc) => {
+            let mut out = String::with_capacity(xml.len());
+            out.push_str(&xml[..doc.root.start]);
+            emit(xml, &doc.root, &mut out);
+            out.push_str(&xml[doc.root.end..]);
+            out
+        }
+        Err(_) => xml.to_string(),
+    }
 }
 
 /// logical bytes reserved for the XML when it is placed in front of the binary sections (30 pages)
